@@ -790,6 +790,18 @@ func run(c *core.Ctx, r *core.Result) {
 		}(i)
 	}
 	wg.Wait()
+	// the session reset through the registry while a long replay is under way (one at a time: the order of frames matters)
+	for i, n := 0, c.N(6, 60); i < n; i++ {
+		rng := c.Rand("reset-during-replay", i)
+		if pi := core.Safe(func() { resetDuringReplay(c, r, i, rng) }); pi != nil {
+			site := core.PanicSite(pi.Stack)
+			if site == "harness" {
+				fmt.Fprintf(os.Stderr, "HARNESS PANIC in C02 reset-during-replay %d: %s\n%s\n", i, pi.Val, pi.Stack)
+				os.Exit(3)
+			}
+			r.Violate("C02/panic/"+site, "panic: "+pi.Val, map[string]interface{}{"run": i, "stack": pi.Stack})
+		}
+	}
 	pointHits.Range(func(k, v interface{}) bool {
 		r.Count("hook_point."+k.(string), int(atomic.LoadInt64(v.(*int64))))
 		return true
